@@ -156,6 +156,52 @@ def run_manybranch(run):
     return len(trace) - 1
 
 
+def run_manyalts(run):
+    """scale in the number of alternatives of one branch (`a | b | c ...` and the list form): overlapping, contained, repeated and
+    bridging alternatives; every i8 / u8 value through td_string! and td!"""
+    import os
+    import probe
+    cases, _ = loadfam.gen_cases(run, "MC_ManyAlts", "MC_ManyAlts.cfg", workers=1)
+    c = cases[0]
+    calls = []
+    order = []
+    for key, ty in (("ua", "u8"), ("ia", "i8")):
+        for syn, suffix in (("pipe", "p"), ("list", "l")):
+            for flav in ("td_string", "td"):
+                cid = len(calls) + 1
+                order.append((key, syn, flav))
+                k = key + suffix
+                expr = ("td_string!(Locale::en, %s, count = n).to_string()" % k) if flav == "td_string" else ("render(td!(Locale::en, %s, count = move || n))" % k)
+                calls.append({"id": cid, "flav": "raw",
+                              "rust": "for n in %s::MIN..=%s::MAX { println!(\"{{\\\"call\\\":%d,\\\"n\\\":{},\\\"outcome\\\":\\\"Ok\\\",\\\"out\\\":\\\"{}\\\"}}\", n, esc(&%s)); } String::new()" % (ty, ty, cid, expr)})
+    project = {"name": "c04alts", "cfg": c["cfg"], "files": c["files"], "calls": calls}
+    results, log = probe.build_and_run(run, [project], tag="_c04alts")
+    r = results["c04alts"]
+    if not r["built"]:
+        run.violation("l2-build;many-alternatives", "the many-alternatives project does not compile", {"build_log": r["build_log"] or log[-3000:]})
+        return 0
+    trace = [{"ev": "RenderManyAlts", "case": 1, "n": ev["n"], "key": order[ev["call"] - 1][0], "syntax": order[ev["call"] - 1][1],
+              "flav": order[ev["call"] - 1][2], "outcome": ev["outcome"], "out": probe.to_syms(ev["out"])}
+             for ev in r["events"] if "n" in ev]
+    if len(trace) != 8 * 256:
+        raise vp.ToolError("c04alts printed %d of %d results (rc=%s, %s)" % (len(trace), 8 * 256, r.get("rc"), r.get("stderr", "")[-300:]))
+    trace.append({"ev": "End"})
+    wd = os.path.join(run.workdir, "l2alts")
+    os.makedirs(wd, exist_ok=True)
+    tpath, cpath = os.path.join(wd, "trace.ndjson"), os.path.join(wd, "cases.ndjson")
+    vp.write_ndjson(tpath, trace)
+    vp.write_ndjson(cpath, [{"id": 1, "abs": c["abs"]}])
+    summary, rejects, _ = vp.trace_validate("Trace_ManyAlts", "Trace_ManyAlts.cfg", wd, tpath, cpath)
+    if summary["consumed"] != summary["events"]:
+        raise vp.ToolError("trace spec consumed %s of %s events" % (summary["consumed"], summary["events"]))
+    run.traces += 1
+    run.events += summary["events"]
+    for rj in rejects:
+        ev = trace[rj["l"] - 1]
+        run.violation("l2;many-alternatives;%s;%s;%s;count=%d" % (ev["key"], ev["syntax"], ev["flav"], ev["n"]), "rendered %r" % vp.text_of(ev["out"]), {"event": ev})
+    return len(trace) - 1
+
+
 def check(run):
     quick = run.tier == "quick"
     cases, res = loadfam.gen_cases(run, "MC_Ranges", "MC_Ranges_%s.cfg" % run.tier, timeout=7200)
@@ -170,6 +216,7 @@ def check(run):
     loadfam.replay_suppressed(run, chosen, "Trace_Ranges", "Trace_Ranges.cfg", _key, step=8)
     run.notes["l2_render_events"] = run_l2(run, cases, rng, 12 if quick else 120, 60 if quick else 800)
     run.notes["l2_many_branch_events"] = run_manybranch(run)
+    run.notes["l2_many_alternatives_events"] = run_manyalts(run)
     run.exhaustive = len(chosen) == len(cases)
     run.notes["declarations_generated"] = len(cases)
     run.assumptions = ["counts and bounds range over 6 anchors per numeric type (type minimum, neighbours of 0, type maximum; floats: exactly representable values)",
